@@ -84,6 +84,10 @@ pub struct MsgCase {
     /// the location named by the messages is the line where the invocation starts
     #[serde(default)]
     pub multiline: bool,
+    /// the trait uses the flattened api (`#[unimock(api=[FooF, FooG])]`): the mock entry points are the structs
+    /// FooF / FooG, the messages must still name the methods `Tr::f` / `Tr::g`
+    #[serde(default)]
+    pub flattened_api: bool,
 }
 
 pub const PRELUDE_EXTRA: &str = r#"
@@ -283,8 +287,9 @@ pub fn source(c: &MsgCase) -> String {
     }
     let params_s: String = params.iter().map(|p| format!(", {p}")).collect();
     let mut s = String::new();
+    let api = if c.flattened_api { "[FooF, FooG]" } else { "M" };
     s.push_str(&format!(
-        "#[unimock(api=M)]\npub trait Tr{gdecl} {{\n    fn f(&self{params_s}) -> u8;\n    fn g(&self, z: u8) -> u8;\n}}\n\n"
+        "#[unimock(api={api})]\npub trait Tr{gdecl} {{\n    fn f(&self{params_s}) -> u8;\n    fn g(&self, z: u8) -> u8;\n}}\n\n"
     ));
     let wt = if gargs.is_empty() {
         String::new()
@@ -333,8 +338,7 @@ pub fn source(c: &MsgCase) -> String {
             "        let m = msg_of(std::panic::catch_unwind(std::panic::AssertUnwindSafe(|| {{ {callexpr}; }})));\n        out.push(format!(\"{tag}\\u{{3}}{{}}\", m));\n    }}\n"
         ));
     };
-    let f = format!("M::f{wt}");
-    let g = format!("M::g{wt}");
+    let (f, g) = if c.flattened_api { (format!("FooF{wt}"), format!("FooG{wt}")) } else { (format!("M::f{wt}"), format!("M::g{wt}")) };
     if let Some(t) = &rej {
         scenario(
             "nomatch",
@@ -706,6 +710,9 @@ pub fn judge(c: &MsgCase, line: &str) -> Result<CaseInfo, String> {
     if c.extras.contains(&Extra::MutWithLifetime) {
         info.classes.push("&mut-T<'_>-argument(Impossible)");
     }
+    if c.flattened_api {
+        info.classes.push("flattened-api(entry-points-named-differently-from-the-methods)");
+    }
     Ok(info)
 }
 
@@ -727,11 +734,12 @@ pub fn case_strategy() -> impl Strategy<Value = MsgCase> {
         any::<u8>(),
         any::<bool>(),
         proptest::bool::weighted(0.4),
+        proptest::bool::weighted(0.3),
     )
-        .prop_filter("needs at least one pattern argument", |(p, _, _, _, _)| {
+        .prop_filter("needs at least one pattern argument", |(p, _, _, _, _, _)| {
             !p.tys.is_empty()
         })
-        .prop_map(|(mut pattern, mut extras, pick, simple, multiline)| {
+        .prop_map(|(mut pattern, mut extras, pick, simple, multiline, flattened_api)| {
             pattern.parenthesized = false;
             if simple {
                 // the mismatch-position part of the property: guard-free, single alternative
@@ -750,11 +758,12 @@ pub fn case_strategy() -> impl Strategy<Value = MsgCase> {
                 extras,
                 pick,
                 multiline,
+                flattened_api,
             }
         })
 }
 
-pub const RULE: &str = "programs = C06's pattern grammar (1-4 pattern-typed arguments) extended by 0-2 extra parameters {type without Debug, reference to it, &u32, &&u32, &mut u32, generic without / with Debug bound, slice of non-Debug values}; for each pattern one rejected and one accepted argument tuple of the finite domain are chosen and every mock-induced error kind is triggered on a fresh mock: no matching call patterns, inputs not matched in call order, explicit panic, value returned twice, no output available, wrong order, out of range, no mock implementation, cannot unmock, no default impl, plus a failed verification naming the pattern; the matching! invocations are written on one line or laid out over several lines (the named location is the line where the invocation starts). Non-trivial = arity >= 2 with a reference parameter and a checked mismatch report; distinct = distinct case";
+pub const RULE: &str = "programs = C06's pattern grammar (1-4 pattern-typed arguments) extended by 0-2 extra parameters {type without Debug, reference to it, &u32, &&u32, &mut u32, generic without / with Debug bound, slice of non-Debug values}; for each pattern one rejected and one accepted argument tuple of the finite domain are chosen and every mock-induced error kind is triggered on a fresh mock: no matching call patterns, inputs not matched in call order, explicit panic, value returned twice, no output available, wrong order, out of range, no mock implementation, cannot unmock, no default impl, plus a failed verification naming the pattern; the matching! invocations are written on one line or laid out over several lines (the named location is the line where the invocation starts); the trait uses the module api or the flattened api (entry points named differently from the methods, which the messages must still name). Non-trivial = arity >= 2 with a reference parameter and a checked mismatch report; distinct = distinct case";
 
 fn spec<'a>(prelude: &'a str) -> Spec<'a, MsgCase> {
     Spec {
